@@ -2,6 +2,10 @@ package main
 
 // Checks is the registry: which harness entry points decide which property, under which bounds.
 var Checks = []Check{
+	{ID: "C18", Entries: []Entry{
+		{Pkg: "node", Func: "VerifC18Events", Shards: 3, Params: map[string]int64{"ops": 3}, Thorough: map[string]int64{"ops": 5},
+			What: "producer + stranger + two consumers: symbolic history of publish (with/without token), link/unlink/monitor/demonitor on a real event with buffer 0..2 and Notify on/off, then unregister or owner termination; per-subscriber delivery once and in order, buffered snapshot, start/stop notifications, exit/down"},
+	}},
 	{ID: "C17", Entries: []Entry{
 		{Pkg: "node", Func: "VerifC17Lifecycle", Shards: 3, Params: map[string]int64{"members": 1, "events": 3}, Tier: "", MaxDec: 0,
 			What: "same harness, one member, three events: reaches stop -> start again -> termination (state and reason of a second run)"},
